@@ -28,7 +28,8 @@ ASSUMPTIONS = [
 ]
 
 BINOPS = ["*", "+", "-", "<<", ">>", "&", "|"]
-ENV = {"va": 3, "vb": 0x1234, "vc_1": 0xFF, "vd": 0x10000, "ve": 0, "vn": -5, "a": 0x10, "A": 0x1235, "x": 2, "S": 0x21, "and_mask": 0x0F, "rep_len": 0x20, "bit_0": 6}
+ENV = {"va": 3, "vb": 0x1234, "vc_1": 0xFF, "vd": 0x10000, "ve": 0, "vn": -5, "a": 0x10, "A": 0x1235, "x": 2, "S": 0x21, "and_mask": 0x0F, "rep_len": 0x20, "bit_0": 6,
+       "The_quick_brown_fox_jumps_over_lazy_dogs_0123456789": 0x31, "THE_QUICK_BROWN_FOX_JUMPS_OVER_LAZY_DOGS": 0x1201}      # (every letter and digit an identifier may hold)
 PRELUDE = "".join(f"{k} := {v}\n" if v >= 0 else f"{k} := 0 - {-v}\n" for k, v in ENV.items())
 # members of named scopes, read by their qualified names (digits and underscores in the member name): known once the scope is closed, i.e.
 # in the contexts that are evaluated when bytes are emitted
@@ -247,7 +248,7 @@ def contexts_for(tokens, value: int | None = None) -> list[str]:
         if value is not None and 0 <= value < 0x10000:
             ctx.append("rmw")       # unsuffixed read-modify-write operand: width follows the value
     if lexable_in_directive(tokens):
-        ctx += ["dl", "assign", "symbol", "macro", "if", "loop_body", "macro_body_twice", "sparse_loop", "hollow_scopes", "loop_local_constant", "after_forward_label_argument", "scope_in_loop", "assigned_in_conditional", "macro_applied_in_loop", "symbol_before_reassignment", "nearer_definition_later", "reopened_namespace", "symbol_defined_over_itself"]
+        ctx += ["dl", "assign", "symbol", "macro", "if", "loop_body", "macro_body_twice", "sparse_loop", "hollow_scopes", "loop_local_constant", "after_forward_label_argument", "scope_in_loop", "assigned_in_conditional", "macro_applied_in_loop", "symbol_before_reassignment", "nearer_definition_later", "reopened_namespace", "symbol_defined_over_itself", "name_starting_with_its_scopes_name"]
         if value is not None and -2 <= value <= 6:
             ctx.append("for")       # loop bound: the body is assembled max(0, value) times
         if value is not None and 0 <= value < 0x100:
@@ -282,6 +283,9 @@ def program_for(ctx: str, text: str) -> str:
     if ctx == "after_forward_label_argument":
         # an argument that is a plain expression keeps its value during expansion also when an earlier argument names a label defined later
         return head + f".macro mf(pl, pp) {{\n.if pp {{\n.db 1\n}} else {{\n.db 0\n}}\n.dl pp\n.dw pl\n}}\nmf(later_q, {text})\nlater_q:\n"
+    if ctx == "name_starting_with_its_scopes_name":
+        # inside `.scope zt` a name spelled zt_zs is that name, also when the scope has a member zs (and a name ztzs, and zt.zs read from outside)
+        return head + f"zt_zs := ({text})\nztzs := 2\n.scope zt {{\nzs = 0x77\nzzs = 0x66\n.dl zt_zs\n.dl zs + ztzs\n}}\n.dl zt.zs\n"
     if ctx == "symbol_defined_over_itself":
         # a `=` definition that reads the name it defines (a constant doubled, a default bumped): evaluated once
         return head + f"zs := 4\nzs = zs * 2 + ({text})\n.dl zs\n.scope zfx {{\nzg = zs + 1\nzs = zs + 1\n.dl zs\n}}\n"
@@ -330,6 +334,8 @@ def expected_bytes(ctx: str, v: int) -> bytes:
         return le(v + 1, 3) + le(v + 3, 3) + le(v + 5, 3) + le(v + 7, 3)
     if ctx == "after_forward_label_argument":
         return (b"\x01" if v != 0 else b"\x00") + le(v, 3) + le(0x8006, 2)
+    if ctx == "name_starting_with_its_scopes_name":
+        return le(v, 3) + le(0x79, 3) + le(0x77, 3)
     if ctx == "symbol_defined_over_itself":
         return le(8 + v, 3) + le(9 + v, 3)
     if ctx == "nearer_definition_later":
